@@ -58,7 +58,7 @@ func (c c20Cfg) oidc(file string) *oidcv1.OIDCConfig {
 		o.TrustedCaConfig = &oidcv1.OIDCConfig_TrustedCertificateAuthority{TrustedCertificateAuthority: world.CA1.PEM}
 	case "inline2":
 		o.TrustedCaConfig = &oidcv1.OIDCConfig_TrustedCertificateAuthority{TrustedCertificateAuthority: world.CA2.PEM}
-	case "file":
+	case "file", "file-empty":
 		o.TrustedCaConfig = &oidcv1.OIDCConfig_TrustedCertificateAuthorityFile{TrustedCertificateAuthorityFile: file}
 	}
 	switch c.Skip {
@@ -197,6 +197,10 @@ func c20RunConfig(run *ev.Run, c c20Cfg) {
 		file = c20TempFile(world.CA1.PEM)
 		defer os.Remove(file)
 	}
+	if c.CA == "file-empty" {
+		file = c20TempFile("")
+		defer os.Remove(file)
+	}
 	cfg, err := c20ClientTLS(pool, c.oidc(file))
 	if err != nil {
 		run.Violation("C20 client-construction-error", fmt.Sprintf("%+v: %v", c, err), c)
@@ -210,6 +214,8 @@ func c20RunConfig(run *ev.Run, c c20Cfg) {
 		want = "one"
 	case "inline2":
 		want = "two"
+	case "file-empty":
+		want = "" // a CA (file) is given: verification is not skipped, and the file holds no certificate to trust yet
 	default:
 		if skip {
 			want = "one+two+unknown"
@@ -276,6 +282,8 @@ func c20Pem(name string) string {
 		return world.CA1.PEM
 	case "two":
 		return world.CA2.PEM
+	case "empty":
+		return "" // a file that exists and has no content yet (a secret that is populated later)
 	}
 	return "this is not a certificate"
 }
@@ -293,7 +301,7 @@ func c20Model(run *ev.Run, settings []string) seqx.Model {
 	for _, st := range settings {
 		evs = append(evs, seqx.Event{Kind: "load", Arg: st})
 	}
-	evs = append(evs, seqx.Event{Kind: "rewrite", Arg: "one"}, seqx.Event{Kind: "rewrite", Arg: "two"}, seqx.Event{Kind: "rewrite", Arg: "garbage"}, seqx.Event{Kind: "tick"},
+	evs = append(evs, seqx.Event{Kind: "rewrite", Arg: "one"}, seqx.Event{Kind: "rewrite", Arg: "two"}, seqx.Event{Kind: "rewrite", Arg: "garbage"}, seqx.Event{Kind: "rewrite", Arg: "empty"}, seqx.Event{Kind: "tick"},
 		// the file is unreadable (removed) for three refresh periods, then back with the content it had, one more period
 		seqx.Event{Kind: "outage"})
 	return seqx.Model{
@@ -330,6 +338,9 @@ func c20Model(run *ev.Run, settings []string) seqx.Model {
 					}
 				} else {
 					c := &c20Client{Setting: e.Arg, Cfg: cfg, Loaded: s.content, Seen: s.content, Applied: []string{s.content}}
+					if s.content == "empty" {
+						c.Seen = "" // a CA file is configured, it holds no certificate yet: nothing is trusted (and nothing skipped)
+					}
 					s.clients = append(s.clients, c)
 					s.byName[e.Arg] = c
 				}
@@ -356,7 +367,7 @@ func c20Model(run *ev.Run, settings []string) seqx.Model {
 				vsched.Quiesce()
 				for _, c := range s.clients {
 					if c20Settings[c.Setting].Interval != "unset" && c20Settings[c.Setting].Interval != "0" {
-						if s.content != "garbage" {
+						if s.content != "garbage" && s.content != "empty" {
 							if c.Seen != s.content {
 								c.Applied = append(c.Applied, s.content)
 								if len(c.Applied) > 4 {
@@ -388,7 +399,7 @@ func c20Model(run *ev.Run, settings []string) seqx.Model {
 					// after a tick the client trusts exactly what its watcher has (validly) seen; between a
 					// rewrite and the next tick either the old or the new content is acceptable
 					okSet := map[string]bool{c.Seen: true}
-					if e.Kind != "tick" && e.Kind != "outage" && s.content != "garbage" {
+					if e.Kind != "tick" && e.Kind != "outage" && s.content != "garbage" && s.content != "empty" {
 						okSet[s.content] = true
 					}
 					if !okSet[got] {
@@ -396,7 +407,7 @@ func c20Model(run *ev.Run, settings []string) seqx.Model {
 							fmt.Sprintf("client of setting %s trusts {%s} but the watched file (now %q) was last seen valid as %q", c.Setting, got, s.content, c.Seen), full)
 					}
 				} else {
-					if !(s.history[got] && got != "garbage") {
+					if !(s.history[got] && got != "garbage") && !(got == "" && c.Loaded == "empty") {
 						run.Violation("C20 unwatched-client-trust", fmt.Sprintf("client of unwatched setting %s trusts {%s}", c.Setting, got), full)
 					}
 				}
@@ -414,7 +425,7 @@ func c20Model(run *ev.Run, settings []string) seqx.Model {
 			}
 			sort.Strings(parts)
 			h := ""
-			for _, k := range []string{"one", "two", "garbage"} {
+			for _, k := range []string{"one", "two", "garbage", "empty"} {
 				if s.history[k] {
 					h += k[:1]
 				}
@@ -545,7 +556,7 @@ func c20Run(run *ev.Run) {
 		"live tickers <= number of distinct watched settings (not <= 1 per file), so a repair giving each settings object its own watcher is not flagged",
 	}
 	var evals int64
-	for _, ca := range []string{"none", "inline1", "inline2", "file"} {
+	for _, ca := range []string{"none", "inline1", "inline2", "file", "file-empty"} {
 		for _, skip := range []string{"unset", "true", "false", `"true"`, `"false"`, `"True"`, `"1"`, `"yes"`, `""`} {
 			for _, iv := range []string{"unset", "0", "50ms"} {
 				c20RunConfig(run, c20Cfg{CA: ca, Skip: skip, Interval: iv})
